@@ -635,7 +635,7 @@ SEQUENCES_3D = [None, ("xmin",), ("zmax",), ("xmin", "xmax"), ("ymin", "zmax"), 
 
 def _geos_3d(quick):
     if quick:
-        return [(2, 2, 2, 2), (2, 2, 3, 2), (1, 2, 3, 2), (2, 3, 2, 2), (2, 2, 2, 3)]
+        return [(2, 2, 2, 2), (2, 2, 3, 2), (1, 2, 3, 2), (2, 2, 2, 3)]
     return [(1, 1, 1, 2), (1, 1, 3, 2), (1, 2, 2, 3), (2, 1, 3, 2), (2, 2, 2, 2), (2, 2, 2, 3), (2, 2, 3, 2), (3, 2, 2, 2),
             (2, 3, 2, 2), (2, 3, 3, 2), (3, 3, 3, 2), (2, 2, 4, 2)]
 
@@ -945,7 +945,10 @@ def _ag_scalar(cx, rng, tn, before, ex, edges, n, Dmax, base, tol, dtype):
         cap = int(rng.integers(2, Dmax * Dmax)) if Dmax > 1 else 1
         p2 = dict(base, tree=tname, compress_mode=cm, cap=cap)
 
-        def t_cap(opt=opt, cm=cm, cap=cap):
+        early = bool(rng.random() < (0.4 if cx.quick else 1.0))
+        p2["early_check"] = early
+
+        def t_cap(opt=opt, cm=cm, cap=cap, early=early):
             worst = [0, 0, 0]
 
             def post(tnx, tids):
@@ -962,6 +965,8 @@ def _ag_scalar(cx, rng, tn, before, ex, edges, n, Dmax, base, tol, dtype):
             if worst[2] == 0:
                 return "the per-step callback was never called"
             # early compression: right after every step the new intermediate is within the cap towards all its neighbours
+            if not early:
+                return None
             big = [0]
 
             def step2(tnx, tid):
